@@ -268,10 +268,23 @@ def check_record_consistency(ctx, rec, case, sigbase):
     return True
 
 
-def check_moment_series(ctx, rec, case, sigbase, N, fptype, e1, tol_rel, skip_if_lossy=True):
+def source_angle(N, sync_freq=0.0):
+    """the angle main() hands to the RF and drift maps for `-N <N>` (StepsPerRevolution 0): the expression the translator
+    read from the current source (Gen_Scaling `angle`), evaluated in double precision.  Used by C04, whose clauses do
+    not depend on the rotation angle being the configured one (that is C03's statement): a slip of the angle in main()
+    then changes C04's prediction together with the program."""
+    try:
+        import scaling_eval
+        return float(scaling_eval.quantity("Gen_Scaling", "angle", {"StepsPerTs": N, "StepsPerRevolution": 0.0, "SynchrotronFrequency": sync_freq}))
+    except Exception:
+        return float(spec_angle(N))
+
+
+def check_moment_series(ctx, rec, case, sigbase, N, fptype, e1, tol_rel, angle=None):
     """every bunch, every record: squared bunch length and energy spread follow the second-moment recurrence of one
-    RF kick + drift + Fokker-Planck step with a = 2 pi/N, t = tan a and the e1 implied by the command line"""
-    a = float(spec_angle(N))
+    RF kick + drift + Fokker-Planck step with a = 2 pi/N (or the given angle), t = tan a and the e1 implied by the
+    command line"""
+    a = float(spec_angle(N)) if angle is None else angle
     t = float(f32(math.tan(a)))
     n = len(rec.z)
     delta = (rec.E[-1] - rec.E[0]) / (n - 1)
@@ -357,7 +370,8 @@ def run_moments_case(ctx, tg, work, case, sigbase):
         return False
     for chk in case["checks"]:
         if chk == "series":
-            ok = check_moment_series(ctx, rec, case, sigbase, N, fpt, e1, case.get("tol", SERIES_TOL)) and ok
+            ang = source_angle(N, case.get("sync_freq", 0.0)) if case.get("angle_from_source") else None
+            ok = check_moment_series(ctx, rec, case, sigbase, N, fpt, e1, case.get("tol", SERIES_TOL), angle=ang) and ok
         elif chk == "alike":
             ok = check_bunches_alike(ctx, rec, case, sigbase) and ok
         elif chk == "records":
@@ -410,9 +424,10 @@ def c04_cases(ctx, quick):
     def mk(n, N, it, zoom, P, fpt, der, T, cur, e1t, checks, **kw):
         td = 2.0 / (fs * e1t * N) if e1t > 0 else 0.0
         opts = ["-s", str(n), "-I"] + [repr(c) for c in cur] + ["-G", "0", "-d", repr(td), "-f", str(fs), "--InitialDistZoom", str(zoom), "-N", str(N),
-                "-T", str(T), "-n", "1", "--LinearRF", "1", "--InterpolationPoints", str(it), "-P", str(P), "--FPType", str(fpt), "--derivation", str(der)]
+                "-T", str(T), "-n", "1", "--LinearRF", "1", "--InterpolationPoints", str(it), "-P", str(P), "--FPType", str(fpt), "--derivation", str(der),
+                "--StepsPerRevolution", "0"]
         return moments_case(opts, N=N, fptype=fpt if e1t > 0 else 0, e1=float(spec_e1(fs, td, N)), nb=sum(1 for c in cur if c > 0),
-                            records=int(math.ceil(N * T)) + 1, checks=checks, **kw)
+                            records=int(math.ceil(N * T)) + 1, checks=checks, angle_from_source=True, sync_freq=fs, **kw)
     N = rng.choice([32, 40])
     n = rng.choice([48, 64])
     it = rng.choice([3, 4])
